@@ -4,6 +4,7 @@ import ZV.Model.C09
     `c09 ip <s>`                                → 16-byte hex of net.ParseIP, or `nil`
     `c09 mh <pattern> <host,host,…>`            → one of `t`/`f`/`p` per host (matchHostnames)
     `c09 vh <oids> <dns,…> <ip,…> <cn> <host,…>` → per host `ok` or `e:<HostnameError.Host>`, joined by `,`
+    `c09 em <oids> <dns,…> <ip,…> <cn> <host> <ipstr,…>` → hex of HostnameError{cert, host}.Error() (ipstr = san.String())
     oids: `2.5.29.17;2.5.29.15` or `_`. -/
 namespace ZV.C09
 
@@ -49,6 +50,12 @@ def handle (args : List String) : String :=
       let cert : Cert := { extOids := o, dnsNames := d, ipAddresses := i, commonName := c }
       ",".intercalate (hl.map (fun h => showV (verifyHostname cert h)))
     | _, _, _, _, _ => "bad-op"
+  | ["em", oids, dns, ips, cn, h, istrs] =>
+    match parseOids oids, parseList dns, parseList ips, ofHex cn, ofHex h, parseList istrs with
+    | some o, some d, some i, some c, some hb, some is =>
+      let cert : Cert := { extOids := o, dnsNames := d, ipAddresses := i, commonName := c }
+      toHex (hostnameErrorMsg cert hb is)
+    | _, _, _, _, _, _ => "bad-op"
   | _ => "bad-op"
 
 end ZV.C09
